@@ -66,3 +66,19 @@ func RunSolo(t *simhook.Tape, runBudget, opBudget uint64, canonicalMaps bool, bo
 	}
 	return res, abort
 }
+
+// AbortIsVerdict tells whether an Abort is a finding. Exhausting the step budget
+// of a whole RUN only means that the drawn workload was long (many heavy
+// operations): the run is truncated and counted, nothing is reported.
+// Exhausting the budget of a single OPERATION, or a deadlock, is the bounded
+// liveness violation "no progress within N steps".
+func AbortIsVerdict(a *simhook.Abort) bool {
+	if a == nil {
+		return false
+	}
+	switch a.Reason {
+	case "run step budget exhausted", "run aborted":
+		return false
+	}
+	return true
+}
